@@ -44,6 +44,8 @@ class Shadow:
     def invariant_holds(self, K):
         if len(self.cells) != K:
             return False
+        if self.labels is not None and any(l < 0 for l in self.labels):
+            return False       # states with unlabelled points are not handed to phases (the phases require labels in [0,K))
         if self.labels is None:
             return all(len(c.members) == 0 for c in self.cells)
         return all(c.members == [i for i, l in enumerate(self.labels) if l == k] for k, c in enumerate(self.cells))
@@ -153,7 +155,7 @@ def run_history(seed, steps_max=30, with_matrix_args=True):
     for step in range(nsteps):
         sh = rng.choice(live)
         src = sh.real
-        op = rng.choice(["assign", "assign", "assign_swap", "assign_swap", "assign_same", "shallow", "shallow_fresh_assign", "deep",
+        op = rng.choice(["assign", "assign", "assign_unlabelled", "assign_swap", "assign_swap", "assign_same", "shallow", "shallow_fresh_assign", "deep",
                          "deep_mutate", "repop", "stats", "optimise", "relabel", "full_round"])
         trace.append(op)
         try:
@@ -168,6 +170,15 @@ def run_history(seed, steps_max=30, with_matrix_args=True):
                     for k, cell in enumerate(sh.cells):
                         cell.members = [i for i, l in enumerate(new) if l == k]
                 bump("assign")
+            elif op == "assign_unlabelled":
+                # the documented "point not labeled" value: such points belong to no cluster
+                new = [rng.randrange(K) if rng.random() < 0.8 else -1 for _ in range(T)]
+                src.point_labels = list(new)
+                if new != sh.labels:
+                    sh.labels = list(new)
+                    for k, cell in enumerate(sh.cells):
+                        cell.members = [i for i, l in enumerate(new) if l == k]
+                bump("assign_unlabelled")
             elif op == "assign_swap" and sh.labels is not None:
                 # size-preserving relabelling: two interior points of different clusters trade labels (every cluster keeps its
                 # size, its first and its last member) - the change a "cheap" membership comparison would miss
